@@ -56,7 +56,10 @@ fn nest(ops: &[AbsOp], pos: &mut usize, m: &AbsModule) -> Option<(Vec<Json>, Str
             "MemoryCopy" => json!({"o": name, "m": o.refs.first()?.1, "s": o.refs.get(1)?.1}),
             "MemoryInit" => json!({"o": name, "seg": o.refs.iter().find(|r| r.0 == "data")?.1, "m": o.refs.iter().find(|r| r.0 == "memory")?.1}),
             "DataDrop" => json!({"o": name, "seg": o.refs.first()?.1}),
-            "TableSize" => json!({"o": name, "t": o.refs.first()?.1}),
+            "TableSize" | "TableGet" | "TableSet" | "TableFill" | "TableGrow" => json!({"o": name, "t": o.refs.first()?.1}),
+            "RefFunc" => json!({"o": name, "f": o.refs.first()?.1}),
+            "RefNull" if o.imm.to_lowercase().contains("func") => json!({"o": name}),
+            "RefIsNull" => json!({"o": name}),
             "TableCopy" => json!({"o": name, "t": o.refs.first()?.1, "s": o.refs.get(1)?.1}),
             "TableInit" => json!({"o": name, "seg": o.refs.iter().find(|r| r.0 == "elem")?.1, "t": o.refs.iter().find(|r| r.0 == "table")?.1}),
             "ElemDrop" => json!({"o": name, "seg": o.refs.first()?.1}),
@@ -137,7 +140,8 @@ pub fn project(bytes: &[u8], tags: &dyn Fn(u32) -> String, gtag: &dyn Fn(u32) ->
         if !t.ty.starts_with("funcref") || t.ty.contains("t64=true") {
             return None;
         }
-        tables.push(json!({"size": kv(&t.ty, "min")?}));
+        // growth is capped at 64 entries in the model (the same cap in both runs)
+        tables.push(json!({"size": kv(&t.ty, "min")?, "max": kv(&t.ty, "max").unwrap_or(64).min(64)}));
     }
     let off = |e: &absmod::AbsExpr| -> Option<Json> {
         match e.k.as_str() {
